@@ -16,6 +16,9 @@ def exec_calls(site):
             c = o.get("c") if isinstance(o, dict) else None
             if c and c.get("str") == site.text:
                 locs |= f.flows_from({s["d"][0]}, through_calls=False)
+    if getattr(site, "fmt_dst", None) is not None:
+        # text built with format!: the formatted String (and what borrows it) carries it
+        locs |= f.flows_from({site.fmt_dst}, through_calls=True, stop_calls=lambda x: x.krate not in ("core", "alloc", "std"))
     out = []
     for c in f.live_calls():
         if c.name not in EXEC:
